@@ -20,7 +20,7 @@ def keeperA : Addr := 108
 -- sinkA = 109 (Hub.lean)
 
 /-- validators known to the chain -/
-def valUniverse : List Addr := [201, 202, 203, 204, 205]
+def valUniverse : List Addr := [201, 202, 203, 204, 205, 206, 207, 208, 209, 210, 211, 212]
 
 structure RegSt where
   owner : Addr
